@@ -5,7 +5,7 @@ From NSL Require Import Base.Types Base.Syntax Model.PyNum Model.IR Model.VM Mod
      Proofs.ReturnExprExample Harness.FragLib Proofs.LowerStmtProofs Proofs.ElabStmtProofs Proofs.StraightLineProofs Proofs.StraightLineExample
      Proofs.ForwardProofs Harness.FwdLib Harness.FragLib2 Model.Opt Proofs.FlowLowerProofs Proofs.FlowFuncProofs Harness.FlowLib
      Proofs.FlowElabProofs Proofs.FlowTableProofs Proofs.FlowSimProofs Proofs.FlowSimExample Harness.FlowLib2 Proofs.HistoryRefineProofs
-     Proofs.LoopLowerProofs Proofs.LoopElabProofs Proofs.LoopSimProofs Proofs.LoopSimExample Proofs.DoSimExample Proofs.ForLowerExample Harness.LoopLib.
+     Proofs.LoopLowerProofs Proofs.LoopElabProofs Proofs.LoopSimProofs Proofs.ForElabProofs Proofs.LoopSimExample Proofs.DoSimExample Proofs.ForLowerExample Proofs.ForSimExample Harness.LoopLib.
 From NSLDyn Require Gen_VM Agree_VM Gen_Shapes.
 Import ListNotations.
 
@@ -223,8 +223,13 @@ Proof. split; vm_compute; reflexivity. Qed.
     blocks and nested conditionals): lowering side [tres_do] -- start block, body, condition block, the branch emitted with
     its true target (the start block) and patched with its false target, by induction on the number of executions of the
     body; source side [src_do] -- the body runs in two pushed frames that stay empty, the condition in one.
-    [loopsrc_in_fragment] decides the static hypotheses and is evaluated by the check on generated
-    functions.  Missing: for loops, break / continue, loops inside loops or conditionals, declarations inside blocks and loop
+    FOR LOOPS ([wstop] also admits [for (t x = i; c; y = e) body] at the top level: a scalar declaration with a pure initialiser, a pure
+    condition, a plain assignment as increment, a body of assignments, blocks and nested conditionals): lowering side [tres_forloop] /
+    [tres_for]; source side [src_for] -- the reference semantics keeps the loop variable in a frame of its own that holds nothing else, the
+    VM keeps it as a local of the function; the extra hypothesis [fors_fresh] says that the variable is not visible where the loop stands
+    (not a global, not a parameter, not declared before -- the name validator rejects such programs: C12), so popping its frame changes
+    no visible name ([Agree_pop1]).  [loopsrc_in_fragment] decides the static hypotheses, [fors_fresh] included, and is evaluated by the check on generated
+    functions.  Missing: break / continue, loops inside loops or conditionals, declarations inside blocks and loop
     bodies, early returns, calls, aggregates. *)
 Theorem C01_loop_functions_partial :
   forall (M : module) (fn : func) (n : nat) (l : list stmt) (e : expr) (tf : tfunc) (F : ifunc),
@@ -233,7 +238,7 @@ Theorem C01_loop_functions_partial :
     forall tl te, tf_body tf = tl ++ [TRet (Some te)] -> length tl = length l ->
     forallb tok (flat_map (wtopexprs n) tl ++ [te]) = true ->
     lits_exact (flat_map tflits (flat_map (wtopexprs n) tl ++ [te])) -> (forall q, In q (flat_map tflits (flat_map (wtopexprs n) tl ++ [te])) -> PrimFloat.eqb q q = true) ->
-    Forall (fresh_decl (glnames M) (argnames fn)) l ->
+    Forall (fresh_decl (glnames M) (argnames fn)) l -> fors_fresh (glnames M) (argnames fn) (fenv M fn) l ->
     forall (P : program) (ws : list rval) (g : RefSem.frame) (vs : vmstate),
       Forall2 (fun p w => has_ty w (fst p)) (f_args fn) ws ->
       (forall x, In x (map snd (f_args fn)) -> ~ In x (glnames M)) ->
@@ -252,7 +257,8 @@ Theorem C01_loop_fragment_test_sound : forall M fn, loopsrc_in_fragment M fn = t
     elab_func (genv_of M) (genvl M) fn = EOk tf /\ lower_func (m_structs M) (glnames M) tf = LOk F /\
     tf_body tf = tl ++ [TRet (Some te)] /\ length tl = length l /\ forallb tok (flat_map (wtopexprs flow_depth) tl ++ [te]) = true /\
     (forall q, In q (flat_map tflits (flat_map (wtopexprs flow_depth) tl ++ [te])) -> PrimFloat.eqb q q = true) /\
-    Forall (fresh_decl (glnames M) (argnames fn)) l /\ (forall x, In x (map snd (f_args fn)) -> ~ In x (glnames M)).
+    Forall (fresh_decl (glnames M) (argnames fn)) l /\ (forall x, In x (map snd (f_args fn)) -> ~ In x (glnames M)) /\
+    fors_fresh (glnames M) (argnames fn) (fenv M fn) l.
 Proof. exact loopsrc_in_fragment_sound. Qed.
 
 (** non-vacuity of (7): int g; f(int n, float b) -> float
@@ -274,8 +280,7 @@ Proof. split; vm_compute; reflexivity. Qed.
     the header declaration first, then condition, body and increment in turn for as many rounds as the condition holds -- and returns
     the value of the returned expression.  For loops: [tres_forloop] (condition block, body block, increment block, exit block; the branch
     patched with both targets, the jump back from the increment block; induction on the number of evaluations of the condition) composed
-    with the header declaration by [tres_seq].  The source side of for loops (the loop variable lives in a frame of its own in the
-    reference semantics) is not proved yet; the correspondence covers it. *)
+    with the header declaration by [tres_seq].  The source side of for loops is part of (7). *)
 Theorem C01_loop_lowering_partial : forall structs gl (f : tfunc) n k l te F,
   tf_body f = l ++ [TRet (Some te)] -> forallb (wtop_ok n) l = true -> tpure te = true -> lower_func structs gl f = LOk F ->
   forall P argv vs locals' V' A' vs' v,
@@ -293,6 +298,18 @@ Example C01_for_loop_lowering_instance : forall P,
 Proof. exact fl_conclusion. Qed.
 Example C01_for_loop_in_fragment : forallb (wtop_ok flow_depth) fl_tl = true /\ existsb (fun s => match s with TFor _ _ _ _ => true | _ => false end) fl_tl = true.
 Proof. exact fl_in_typed_fragment. Qed.
+
+(** non-vacuity of (7) for for loops: int g; f(int n, float b) -> float
+    { float acc = b * 0.5; for (int i = 0; i < n; i = i + 1) { acc += i; if (i < g) { g = g - 1; } } return acc + g; }
+    at n = 3, b = 1, g = 2: both sides give 4.5 and leave g = 1 *)
+Example C01_for_loop_instance : forall P,
+  exists v vs', fst (match exec_list fo_M 30 (f_body fo_fn) (call_state fo_fn fo_ws fo_g) with ROk p => p | _ => (ONormal, call_state fo_fn fo_ws fo_g) end) = OReturn (SV v) /\
+                exists n, forall fuel', n <= fuel' -> run fuel' P fo_F 0 (call_frame fo_ws (init_regs fo_F)) fo_vs = Done (v_of v) vs'.
+Proof. exact fo_conclusion. Qed.
+Example C01_for_loop_values :
+  loopsrc_in_fragment fo_M fo_fn = true /\
+  run 200 {| p_funcs := [fo_F]; p_globals := ["g"%string] |} fo_F 0 (call_frame fo_ws (init_regs fo_F)) fo_vs = Done (VFloat 4.5%float) {| globals := [("g"%string, VInt 1)]; hp := [] |}.
+Proof. split; vm_compute; reflexivity. Qed.
 
 (** non-vacuity of (7) for do loops: int g; f(int n, float b) -> float
     { float acc = b * 0.5; int i = 0; do { acc += i; if (i < g) { g = g - 1; } i = i + 1; } while (i < n); return acc + g; }
